@@ -40,6 +40,10 @@ pub enum C14Case {
     Read { base: u16, chunk: Chunk, interrupt_every: u8, bufcap: u16 },
     /// parse a package truncated at `at`
     Truncated { base: u16, at: u32 },
+    /// parse from a BufRead whose buffer holds exactly the bytes [0, at) at first and afterwards
+    /// `then` bytes at a time: every position of the first buffer boundary relative to the
+    /// structure (end of a header, inside the signature padding, ...)
+    ReadSplit { base: u16, at: u32, then: u16 },
 }
 
 struct Sink {
@@ -196,6 +200,42 @@ const FAMILIES: [(Chunk, u8, bool); 16] = [
     (Chunk::Seeded(3), 0, true),
 ];
 
+/// a BufRead with scripted buffer contents
+struct SplitSource<'a> {
+    data: &'a [u8],
+    pos: usize,
+    at: usize,
+    then: usize,
+}
+
+impl SplitSource<'_> {
+    fn window(&self) -> std::ops::Range<usize> {
+        let end = if self.pos < self.at { self.at } else { self.pos + self.then.max(1) };
+        self.pos..end.min(self.data.len())
+    }
+}
+
+impl io::BufRead for SplitSource<'_> {
+    fn fill_buf(&mut self) -> io::Result<&[u8]> {
+        Ok(&self.data[self.window()])
+    }
+    fn consume(&mut self, n: usize) {
+        // (a consume beyond the buffer is a caller bug; clamp like BufReader does)
+        let w = self.window();
+        self.pos += n.min(w.end - w.start);
+    }
+}
+
+impl io::Read for SplitSource<'_> {
+    fn read(&mut self, b: &mut [u8]) -> io::Result<usize> {
+        let w = self.window();
+        let n = b.len().min(w.end - w.start);
+        b[..n].copy_from_slice(&self.data[w.start..w.start + n]);
+        self.pos += n;
+        Ok(n)
+    }
+}
+
 impl Property for C14 {
     type Case = C14Case;
     const ID: &'static str = "C14";
@@ -207,13 +247,13 @@ impl Property for C14 {
         C14 { bases }
     }
     fn rule(&self) -> String {
-        format!("fault enumeration: for each of {} small pool packages (unsigned, signed, with files, hand-encoded, rpmbuild-made), Package::write and PackageMetadata::write into scripted sinks - EVERY failure offset 0..len crossed with 16 chunking families (1 byte, fixed 2/3/5/16/17/4096, seeded random 1..64 sequences, with and without interleaved Interrupted errors; six of them sinks with their own gathering write_vectored accepting 1/17/100/300/1000/random bytes per call), plus the no-failure run of each family; every offset again with four families of sinks that signal 'full' by accepting 0 bytes instead of failing; Package::parse from scripted sources (same families x BufReader capacities 1/7/64/8192) and from EVERY truncation offset; plus three synthetic packages whose signature or main header exceeds 1 MiB (all read families, sampled write failure offsets and truncations). Non-trivial = a sink script with a short accept or a fault before the end / a source with short reads / a truncation; distinct by construction.", self.bases.len())
+        format!("fault enumeration: for each of {} small pool packages (unsigned, signed, with files, hand-encoded, rpmbuild-made), Package::write and PackageMetadata::write into scripted sinks - EVERY failure offset 0..len crossed with 16 chunking families (1 byte, fixed 2/3/5/16/17/4096, seeded random 1..64 sequences, with and without interleaved Interrupted errors; six of them sinks with their own gathering write_vectored accepting 1/17/100/300/1000/random bytes per call), plus the no-failure run of each family; every offset again with four families of sinks that signal 'full' by accepting 0 bytes instead of failing; Package::parse from scripted sources (same families x BufReader capacities 1/7/64/8192) from BufReads whose first buffer ends at EVERY offset (then 1/9/4096 bytes at a time), and from EVERY truncation offset; plus three synthetic packages whose signature or main header exceeds 1 MiB (all read families, sampled write failure offsets and truncations). Non-trivial = a sink script with a short accept or a fault before the end / a source with short reads / a truncation; distinct by construction.", self.bases.len())
     }
     fn assumptions(&self) -> Vec<String> {
         vec!["canonical bytes = write into a Vec; the sinks obey the Write contract (accept >= 1 byte of a non-empty buffer unless they fail)".into()]
     }
     fn required_labels(&self, _t: Tier) -> Vec<&'static str> {
-        vec!["full-sink-accepts-zero", "header-over-1MiB", "vectored-sink", "write-ok-short-accepts", "write-failed-at-offset", "read-chunked", "truncated-before-payload", "interrupted"]
+        vec!["first-buffer-boundary", "full-sink-accepts-zero", "header-over-1MiB", "vectored-sink", "write-ok-short-accepts", "write-failed-at-offset", "read-chunked", "truncated-before-payload", "interrupted"]
     }
     fn phases(&self, _tier: Tier) -> Vec<Phase<C14Case>> {
         let bases = Arc::new(self.bases.clone());
@@ -328,6 +368,15 @@ impl Property for C14 {
                     let at = if j < 380 { j * len / 380 } else { let k = j - 380; ((k / 5 + 1) << 20) + (k % 5) - 2 };
                     Some(C14Case::Truncated { base, at: at.min(len) as u32 })
                 }),
+            },
+            Phase::Enumerate {
+                name: "every-first-buffer-boundary",
+                total: truncs.len() as u64 * 3,
+                exhaustive: true,
+                gen: {
+                    let t3 = truncs.clone();
+                    Arc::new(move |i| t3.get((i / 3) as usize).map(|(b, at)| C14Case::ReadSplit { base: *b, at: *at, then: [1u16, 9, 4096][(i % 3) as usize] }))
+                },
             },
             Phase::Enumerate {
                 name: "every-truncation",
@@ -476,6 +525,27 @@ fn inner(case: &C14Case, o: &mut Outcome) -> Result<(), (String, String)> {
             match panics::catch(|| rpm::PackageMetadata::parse(&mut br)) {
                 Ok(Ok(m)) if m == want.metadata => {}
                 other => return Err(("chunked-read-differs".into(), format!("PackageMetadata::parse from a chunked source: {:?}", other.map(|r| r.map(|_| "different value").map_err(|e| e.to_string()))))),
+            }
+        }
+        C14Case::ReadSplit { base, at, then } => {
+            o.label("first-buffer-boundary");
+            let bytes_arc = base_bytes(*base);
+            let bytes: &Vec<u8> = &bytes_arc;
+            let want = rpm::Package::parse(&mut &bytes[..]).map_err(|e| ("harness-pool".to_string(), e.to_string()))?;
+            let mut src = SplitSource { data: bytes, pos: 0, at: (*at as usize).min(bytes.len()), then: *then as usize };
+            match panics::catch(|| rpm::Package::parse(&mut src)) {
+                Err(pn) => return Err(("read-panic".into(), pn)),
+                Ok(Err(e)) => return Err(("chunked-read-differs".into(), format!("parse from a BufRead that holds bytes [0, {at}) first and then {then} bytes at a time fails: {e}"))),
+                Ok(Ok(g)) => {
+                    if g.metadata != want.metadata || g.content != want.content {
+                        return Err(("chunked-read-differs".into(), format!("parse from a BufRead that holds bytes [0, {at}) first and then {then} bytes at a time gives a different package")));
+                    }
+                }
+            }
+            let mut src = SplitSource { data: bytes, pos: 0, at: (*at as usize).min(bytes.len()), then: *then as usize };
+            match panics::catch(|| rpm::PackageMetadata::parse(&mut src)) {
+                Ok(Ok(m)) if m == want.metadata => {}
+                other => return Err(("chunked-read-differs".into(), format!("PackageMetadata::parse from a BufRead that holds bytes [0, {at}) first: {:?}", other.map(|r| r.map(|_| "different value").map_err(|e| e.to_string()))))),
             }
         }
         C14Case::Truncated { base, at } => {
